@@ -89,7 +89,12 @@ func (p *Reader) ReadCStringN(n int) string {
 		return ""
 	}
 
-	if n <= 0 {
+	if n < 0 {
+		// only an announced length that overflowed int (a 32-bit field on a 32-bit platform) gets here
+		p.opError = newPacketError(io.ErrUnexpectedEOF, "ReadCStringN read")
+		return ""
+	}
+	if n == 0 {
 		return ""
 	}
 
@@ -124,7 +129,12 @@ func (p *Reader) ReadCStringNWithoutTrim(n int) string {
 		return ""
 	}
 
-	if n <= 0 {
+	if n < 0 {
+		// only an announced length that overflowed int (a 32-bit field on a 32-bit platform) gets here
+		p.opError = newPacketError(io.ErrUnexpectedEOF, "ReadCStringN read")
+		return ""
+	}
+	if n == 0 {
 		return ""
 	}
 
@@ -173,7 +183,12 @@ func (p *Reader) ReadNBytes(n int) []byte {
 		return nil
 	}
 
-	if n <= 0 {
+	if n < 0 {
+		// only an announced length that overflowed int (a 32-bit field on a 32-bit platform) gets here
+		p.opError = newPacketError(io.ErrUnexpectedEOF, "ReadNBytes read")
+		return nil
+	}
+	if n == 0 {
 		return nil
 	}
 
